@@ -12,11 +12,12 @@ BOUNDS = {
     'quick': 'clean texts with <= 3 non-whitespace characters (every UTF-8 width vector for <= 2 characters; for 3 characters all vectors over the widths 1 and 3 plus four with 2- and 4-byte characters), code points symbolic, and every placement of single spaces; '
              'probabilities: (insert = 0, delete symbolic in (0,1]), (insert symbolic, delete = 0), both symbolic, and values '
              'outside [0,1] clamped; seed symbolic; every random stream; grapheme mode over Sigma_g with <= 3 code points (3 code points: 6 of the 27 width vectors); '
-             'called through preprocessing(WhitespaceCorruption(..)) on input and on target part',
-    'thorough': 'same with <= 4 non-whitespace characters (every width vector for <= 3 characters, the reduced width set for 4; grapheme mode: all 27 width vectors for 3 code points)',
+             'called through preprocessing(WhitespaceCorruption(..)) on input and on target part; the whitespace-correction task '
+             'function train_task(WhitespaceCorrection(g, tokenizer)) on (input, target) pairs with <= 3 content characters (widths 1 and 3; two width vectors for 3 characters), the grapheme flag of the tokenizer equal to and different from that of the task, '
+             'every placement of single spaces on both sides, character tokenizer with prefix / suffix tokens and byte tokenizer with two prefix / suffix tokens',
+    'thorough': 'task function with <= 4 content characters (widths 1, 2, 3); same with <= 4 non-whitespace characters (every width vector for <= 3 characters, the reduced width set for 4; grapheme mode: all 27 width vectors for 3 code points)',
 }
-OUTSIDE = ['longer texts', 'grapheme mode outside Sigma_g', 'the whitespace-correction task closure (tokenizer construction); '
-           'its label vector is operations(input, target), which is what is checked here']
+OUTSIDE = ['longer texts', 'grapheme mode outside Sigma_g', 'whitespace-correction task with BPE / HuggingFace tokenizers']
 ASSUMPTIONS = ['rand modelled as every stream; determinism = every draw comes from a generator seeded with info.seed',
                'whitespace-clean = every whitespace character is U+0020, none leading/trailing/adjacent']
 VALIDATION_ALLOW_FORKS = True   # random draws are solver variables: the native output must be one of MIRSE's
@@ -42,8 +43,34 @@ def shapes(tier):
                     if g and pm != 'both' and n > 2:
                         continue
                     out.append({'g': g, 'widths': ws, 'gaps': list(gp), 'pmode': pm, 'part': 'Input' if sum(gp) % 2 == 0 else 'Target'})
+    # the whitespace-correction task function (data/task.rs): labels for (corrupted input, clean target)
+    tk = 3 if tier == 'quick' else 4
+    for g in (False, True):
+        for ws in width_shapes(tk, widths=(1, 3) if tier == 'quick' else (1, 2, 3), min_n=1):
+            n = len(ws)
+            if tier == 'quick' and n == tk and list(ws) not in ([1, 1, 1], [3, 1, 3]):
+                continue
+            for gp in itertools.product((0, 1), repeat=n - 1):
+                for tg in itertools.product((0, 1), repeat=n - 1):
+                    for sp, kind in (('bos_eos', 'char'), ('two_prefix', 'byte'), ('default', 'char')):
+                        if (sp != 'bos_eos' and (g or n < tk)) or (kind == 'byte' and any(w != 1 for w in ws)):
+                            continue
+                        out.append({'g': g, 'widths': ws, 'gaps': list(gp), 'tgaps': list(tg), 'part': 'Task', 'special': sp,
+                                    'kind': kind, 'pmode': 'task', 'tok_g': g})
+                        if sp == 'bos_eos' and (n == 2 or (n > 2 and tier != 'quick')):
+                            # the tokenizer's own grapheme flag is independent of the task's
+                            out.append({'g': g, 'widths': ws, 'gaps': list(gp), 'tgaps': list(tg), 'part': 'Task', 'special': sp,
+                                        'kind': kind, 'pmode': 'task', 'tok_g': not g})
     out.sort(key=lambda s: -len(s['widths']))
     return out
+
+
+def setup_machine(machine, shape, opts):
+    # the task shapes construct a tokenizer: its vocabulary maps are iterated in insertion order (as in C01 / C04 / C17;
+    # the special-token order is compared as a set there), and the constructor needs a larger step budget
+    if shape is not None and shape.get('part') == 'Task':
+        machine.hash_order = 'insertion'
+        machine.step_budget = max(machine.step_budget, 3000000)
 
 
 def mk_enum(m, ty, variant, fields=()):
@@ -71,13 +98,105 @@ def content_partition(units, is_space):
 def _kf_cluster(shape, inputs, failed):
     return shape['g'] and set(failed) <= {'operations(corrupted, original) succeeds',
                                          'one label per character of the corrupted text',
-                                         'repair(corrupted, operations(corrupted, original)) == original'}
+                                         'repair(corrupted, operations(corrupted, original)) == original'} | set(TASK_CLAIMS[:3])
 
 
 KNOWN_MATCHERS = {'c14_cluster_boundary_changes': _kf_cluster}
 
 
+# the task's grapheme flag `g` decides the label units; the tokenizer's own flag `tok_g` only the token units
+TASK_CLAIMS = ['the whitespace-correction task function succeeds on a corrupted input and its clean target',
+               'task labels: -1 per prefix token, one label per character of the input, -1 per suffix token',
+               'task labels equal the whitespace operations that turn the input into the target',
+               'task token ids are those of the input text (one per label for a character tokenizer)']
+
+
+def _interleave(content, gaps, space):
+    out = []
+    for i, c in enumerate(content):
+        out.append(c)
+        if i < len(content) - 1 and gaps[i]:
+            out.append(space)
+    return out
+
+
+def _ref_labels(n_content, gaps, tgaps):
+    """independent reference: one label per character of the input (0 keep, 1 insert a space before, 2 delete)"""
+    out = []
+    for k in range(n_content):
+        out.append(1 if (k > 0 and tgaps[k - 1] and not gaps[k - 1]) else 0)
+        if k < n_content - 1 and gaps[k]:
+            out.append(0 if tgaps[k] else 2)
+    return out
+
+
+def run_task(ctx, shape, opts):
+    from harnesses.tok_common import special_config, SPECIALS
+    m = ctx.m
+    g = shape['g']
+    tok_g = shape.get('tok_g', g)
+    content = ctx.in_string('content', shape['widths']).chars()
+    if g or tok_g:
+        assume_sigma_g(ctx, content)
+    for c in content:
+        ctx.assume(m.bnot(char_is_whitespace(c)))
+    inp = _interleave(content, shape['gaps'], SPACE)
+    tgt = _interleave(content, shape['tgaps'], SPACE)
+    iunits, tunits = units_of(ctx, inp, g), units_of(ctx, tgt, g)
+    if g:
+        assume_no_mixed_units(ctx, inp, iunits)
+        assume_no_mixed_units(ctx, tgt, tunits)
+        pc = content_partition(iunits, [c is SPACE for c in inp])
+        po = content_partition(tunits, [c is SPACE for c in tgt])
+        cu = units_of(ctx, content, True)
+        if (pc != po or len(pc) != len(cu)):
+            if 'c14_cluster_boundary_changes' in opts.get('known_active', ()) and not opts.get('concrete'):
+                raise Infeasible()
+    if shape['kind'] == 'char':
+        tk = mk_enum(m, 'TokenizeConfig', 'Character', [Struct('CharTokenizerConfig', [tok_g, m.new_string('<unk>')], ['use_graphemes', 'unk_token'])])
+    else:
+        tk = mk_enum(m, 'TokenizeConfig', 'Byte', [Struct('ByteTokenizerConfig', [tok_g, NONE(), mk_enum(m, 'ByteGroups', 'Bytes'),
+                                                                                mk_enum(m, 'GroupAggregation', 'Mean')],
+                                                          ['use_graphemes', 'pad_to_multiple_of', 'groups', 'aggregation'])])
+    cfg = Struct('TokenizerConfig', [tk, special_config(m, shape['special'])], ['tokenize', 'special'])
+    f = m.call('train_task', mk_enum(m, 'TrainTaskConfig', 'WhitespaceCorrection', [g, cfg]))
+    item = Struct('TrainData', [mkstring(ctx, inp), mkstring(ctx, tgt)], ['input', 'target'])
+    r = m.call_value(f, [ref_to(item)])
+    ctx.require(r.variant == 'Ok', TASK_CLAIMS[0])
+    ti = m.peel(r.fields[0])
+    ctx.require(ti.variant == 'SequenceClassification', TASK_CLAIMS[0])
+    ids, pad, labels = [m.peel(x) for x in ti.fields]
+    labs = [m.peel(x) for x in labels.items]
+    tokens, padtok, prefix, suffix = SPECIALS[shape['special']]
+    npre, nsuf = len(prefix), len(suffix)
+    nunits = len(iunits)
+    ctx.out('labels', [x.v if isinstance(x.v, int) else str(x.v) for x in labs])
+    ctx.out('n_ids', len(ids.items))
+    ok_len = len(labs) == npre + nunits + nsuf
+    ctx.require(ok_len and all(isinstance(x.v, int) and x.v == (1 << 32) - 1 or x.v == -1 for x in labs[:npre] + labs[len(labs) - nsuf:]),
+                TASK_CLAIMS[1])
+    if ok_len and not g:
+        want = _ref_labels(len(content), shape['gaps'], shape['tgaps'])
+        ctx.require([x.v for x in labs[npre:npre + nunits]] == want, TASK_CLAIMS[2])
+    elif ok_len:
+        # grapheme mode: the labels must repair the input into the target (independent of how clusters are counted)
+        ops = VecObj([Enum('Operation', ['Keep', 'Insert', 'Delete'][x.v], x.v, []) for x in labs[npre:npre + nunits]
+                      if isinstance(x.v, int) and 0 <= x.v <= 2])
+        ctx.require(len(ops.items) == nunits, TASK_CLAIMS[2])
+        if len(ops.items) == nunits:
+            rep = m.call('repair', mkstring(ctx, inp).as_str(), ops.as_slice(), g)
+            ctx.require(rep.variant == 'Ok' and ctx.must(chars_equal(ctx, out_chars(ctx, rep.fields[0]), tgt)), TASK_CLAIMS[2])
+    if shape['kind'] == 'char':
+        ctx.require(len(ids.items) == npre + len(units_of(ctx, inp, tok_g)) + nsuf, TASK_CLAIMS[3])
+    else:
+        ctx.require(len(ids.items) == npre + len(inp) + nsuf, TASK_CLAIMS[3])
+    ctx.sample = {'task': True, 'graphemes': g, 'widths': shape['widths'], 'gaps': shape['gaps'], 'tgaps': shape['tgaps'],
+                  'labels': [x.v for x in labs if isinstance(x.v, int)]}
+
+
 def run(ctx, shape, opts):
+    if shape['part'] == 'Task':
+        return run_task(ctx, shape, opts)
     m = ctx.m
     g = shape['g']
     content = ctx.in_string('content', shape['widths']).chars()
@@ -196,7 +315,61 @@ def _call(native, shape, inputs, seed, file_idx=None):
                                  file_idx=str(inputs.get('file_idx', 0) if file_idx is None else file_idx)))
 
 
+def _task_call(native, shape, inputs):
+    from harnesses.tok_common import SPECIALS
+    tokens, pad, prefix, suffix = SPECIALS[shape['special']]
+    c = inputs['content']
+    return native_ok(native.call('ws_task', input=_interleave(c, shape['gaps'], 0x20), target=_interleave(c, shape['tgaps'], 0x20),
+                                 g=shape['g'], tok_g=shape.get('tok_g', shape['g']), kind=shape['kind'], pad=pad, tokens=tokens, prefix=prefix, suffix=suffix))
+
+
+def task_check(native, inputs, shape):
+    from harnesses.tok_common import SPECIALS
+    g = shape['g']
+    content = inputs['content']
+    if any(py_is_ws(c) for c in content):
+        return []
+    inp, tgt = _interleave(content, shape['gaps'], 0x20), _interleave(content, shape['tgaps'], 0x20)
+    for txt in (inp, tgt):
+        for a, b in _gunits(native, txt, g):
+            fl = [py_is_ws(c) for c in txt[a:b]]
+            if any(fl) and not all(fl):
+                return []
+    tokens, pad, prefix, suffix = SPECIALS[shape['special']]
+    npre, nsuf = len(prefix), len(suffix)
+    k, v = _task_call(native, shape, inputs)
+    if k != 'ok':
+        return ['no panic']
+    if 'err' in v:
+        return [TASK_CLAIMS[0]]
+    failed = set()
+    nunits = len(_gunits(native, inp, g))
+    labs = v['labels']
+    if len(labs) != npre + nunits + nsuf or any(x != -1 for x in labs[:npre] + labs[len(labs) - nsuf:]):
+        failed.add(TASK_CLAIMS[1])
+    else:
+        inner = labs[npre:npre + nunits]
+        if not g:
+            if inner != _ref_labels(len(content), shape['gaps'], shape['tgaps']):
+                failed.add(TASK_CLAIMS[2])
+        else:
+            k4, rep = native_ok(native.call('ws_repair', s=inp, ops=[['Keep', 'Insert', 'Delete'][x] if 0 <= x <= 2 else 'Keep' for x in inner], g=g))
+            if k4 != 'ok' or rep.get('Ok') != tgt:
+                failed.add(TASK_CLAIMS[2])
+    want_ids = npre + nsuf + (len(_gunits(native, inp, shape.get('tok_g', g))) if shape['kind'] == 'char' else len(inp))
+    if len(v['token_ids']) != want_ids:
+        failed.add(TASK_CLAIMS[3])
+    return sorted(failed)
+
+
 def native_outputs(native, shape, inputs):
+    if shape['part'] == 'Task':
+        k, v = _task_call(native, shape, inputs)
+        if k != 'ok':
+            return {'panic': v}
+        if 'err' in v:
+            return {'labels': 'Err'}
+        return {'labels': [x if x >= 0 else (1 << 32) - 1 for x in v['labels']], 'n_ids': len(v['token_ids'])}
     k, v = _call(native, shape, inputs, inputs.get('seed', 0))
     if k != 'ok':
         return {'panic': v}
@@ -204,6 +377,8 @@ def native_outputs(native, shape, inputs):
 
 
 def concrete_check(native, inputs, shape):
+    if shape['part'] == 'Task':
+        return task_check(native, inputs, shape)
     g = shape['g']
     content = inputs['content']
     orig = _orig(shape, inputs)
@@ -284,6 +459,11 @@ FIXED_CASES = [({'g': False, 'widths': [1], 'gaps': [], 'pmode': 'both', 'part':
 
 
 def random_case(rng):
+    if rng.random() < 0.3:
+        c = [rng.choice([0x61, 0x4E2D, 0x62]) for _ in range(rng.randint(1, 3))]
+        return ({'g': rng.random() < 0.3, 'widths': widths_of(c), 'gaps': [rng.randint(0, 1) for _ in range(len(c) - 1)],
+                 'tgaps': [rng.randint(0, 1) for _ in range(len(c) - 1)], 'part': 'Task', 'special': rng.choice(['bos_eos', 'default']),
+                 'kind': 'char', 'pmode': 'task'}, {'content': c})
     c = [rng.choice([0x61, 0xE4, 0x4E2D, 0x62]) for _ in range(rng.randint(0, 3))]
     return ({'g': rng.random() < 0.3, 'widths': widths_of(c), 'gaps': [rng.randint(0, 1) for _ in range(max(0, len(c) - 1))],
              'pmode': rng.choice(['ins0', 'del0', 'both']), 'part': rng.choice(['Input', 'Target'])},
